@@ -350,6 +350,19 @@ def measures(seed, n, perms):
         acc.case("segment")
         if not close(s.length(), math.sqrt(float(O.length2(("Segment", a, b))))):
             acc.fail("segment", "Segment.length %r" % s.length(), dict(segment=ser(("Segment", a, b))))
+    # short-lived polygons and pyramids, one after the other: the measures of an object are its own, whatever objects lived (at the same address) before it
+    for k_ in range(1, 41):
+        klass = "short-lived rectangle"
+        acc.case(klass)
+        w, h_ = k_, (k_ % 7) + 1
+        pg = g.ConvexPolygon((g.Point(0, 0, 1), g.Point(w, 0, 1), g.Point(w, h_, 1), g.Point(0, h_, 1)))
+        a_, l_ = pg.area(), pg.length()
+        pyr = g.Pyramid(pg, g.Point(1, 1, 4), direct_call=False)
+        v_ = pyr.volume()
+        if not (close(a_, w * h_) and close(l_, 2 * (w + h_)) and close(v_, w * h_)):
+            acc.fail(klass, "rectangle %d x %d built after other polygons were dropped: area %r, length %r, pyramid volume %r (height 3), expected %r, %r, %r" % (w, h_, a_, l_, v_, w * h_, 2 * (w + h_), w * h_),
+                     dict(polygon=ser(("Polygon", ((0, 0, 1), (w, 0, 1), (w, h_, 1), (0, h_, 1))))))
+        del pg, pyr
     for ph in K.polyhedra(rng, n):
         faces = [list(f) for f in ph[1]]
         expV, expA, expL = float(O.volume(ph)), O.surface_area_float(ph), O.edge_length_sum_float(ph)
